@@ -1011,7 +1011,10 @@ func c20RaceRun(c *core.Ctx) {
 	if n > 0 {
 		c.Violation("C20:data-race", fmt.Sprintf("the race detector reported %d data race(s) in contended use of shared readers / verifiers / trust store", n), map[string]any{"report": first})
 	}
-	if err != nil {
+	if strings.Contains(string(out), "fatal error: concurrent map") || strings.Contains(string(out), "WARNING: DATA RACE") {
+		// the Go runtime itself stopped the contended workload (unsynchronised map access), or the report went to stderr
+		c.Violation("C20:data-race", "the contended workload was stopped by the runtime / reported a data race: "+firstMatchLine(string(out), "fatal error", "DATA RACE"), map[string]any{"output": tailStr(string(out), 3000)})
+	} else if err != nil {
 		if ee, ok := err.(*exec.ExitError); ok && ee.ExitCode() == 1 {
 			// the contended workload itself found results that differ from the sequential ones
 			c.Violation("C20:contended-results", "contended run: a concurrent call returned another result than the same call alone", map[string]any{"output": tailStr(string(out), 2000)})
@@ -1019,6 +1022,17 @@ func c20RaceRun(c *core.Ctx) {
 			core.Infra("C20: race-detector run failed: %v\n%s", err, tailStr(string(out), 2000))
 		}
 	}
+}
+
+func firstMatchLine(s string, subs ...string) string {
+	for _, l := range strings.Split(s, "\n") {
+		for _, sub := range subs {
+			if strings.Contains(l, sub) {
+				return strings.TrimSpace(l)
+			}
+		}
+	}
+	return ""
 }
 
 func tailStr(s string, n int) string {
